@@ -105,6 +105,14 @@ def gen_module(rng):
             if pos != "last":
                 lines += filler(rng.randint(0, 6), "    ") + filler(rng.randint(0, 4))
         entry = "fail"
+        if rng.random() < 0.4:
+            # a caller whose call line is an unfinished statement (arguments / brackets continue on the next lines)
+            lines += rng.choice([
+                ["def outer():", "    return fail(", "    )"],
+                ["def outer():", "    return {", "        'k': fail(),", "    }"],
+                ["def outer():", "    value = [fail()", "             for _ in range(1)]", "    return value"],
+            ])
+            entry = "outer"
     fail_line = next(i for i, l in enumerate(lines) if l.endswith("#FAIL")) + 1
     text = "\n".join(lines) + ("" if (pos == "last" or rng.random() < 0.2) else "\n")
     return dict(source=text, fail_line=fail_line, entry=entry, shape=(pos, stmt_kind, len(lines)), stmt=stmt_kind, pos=pos)
@@ -168,7 +176,7 @@ def raise_from(env, mod_case, message, depth, mode, rng):
             return None, path, available
         spec.loader.exec_module(mod)
         mod.MSG = message
-        fn = mod.fail
+        fn = getattr(mod, mod_case["entry"])
         if mode == "deleted":
             os.unlink(path)
             available = False
@@ -177,6 +185,13 @@ def raise_from(env, mod_case, message, depth, mode, rng):
             if n <= 0:
                 return fn()
             return recurse(n - 1)
+
+        def alternate(n):
+            if n <= 0:
+                return fn()
+            if n % 2:
+                return alternate(n - 1)  # first call site
+            return alternate(n - 1)  # second call site
 
         def ping(n):
             if n <= 0:
@@ -190,6 +205,8 @@ def raise_from(env, mod_case, message, depth, mode, rng):
             env.relay.relay2(recurse, depth)
         elif mode == "mutual":
             ping(depth)
+        elif mode == "two-sites":
+            alternate(depth)
         else:
             recurse(depth)
     except BaseException as e:
@@ -249,8 +266,33 @@ def judge_render(sh, env, exc, case, source, fail_line, path, available):
                 sh.violate("class-missing", rec, "class name %s not in the report" % cls)
             if source is None or not available:
                 continue
-            # ---- the final snippet -----------------------------------------------------
             lines = text.split("\n")
+            # ---- snippets of the stack listing (debug verbosity): each marks its own frame's line ----
+            if verbosity == 4:
+                i = 0
+                while i < len(lines):
+                    m = re.match(r"^\s*(\d+)\s+(\S.*):(\d+) in (\S+)\s*$", lines[i])
+                    i += 1
+                    if not m:
+                        continue
+                    frame_line = int(m.group(3))
+                    snip = []
+                    while i < len(lines):
+                        sm = SNIP.match(lines[i])
+                        if not sm:
+                            break
+                        snip.append((sm.group(1), int(sm.group(2))))
+                        i += 1
+                    if not snip:
+                        continue
+                    sh.count("stack_frame_snippets")
+                    nums = [x[1] for x in snip]
+                    marked = [x[1] for x in snip if x[0]]
+                    if nums != list(range(nums[0], nums[0] + len(nums))) or marked != [frame_line]:
+                        sh.violate("frame-snippet-mark", rec, "stack entry %s:%d in %s: snippet shows lines %r and marks %r" % (
+                            os.path.basename(m.group(2)), frame_line, m.group(4), nums, marked))
+                        break
+            # ---- the final snippet -----------------------------------------------------
             at = None
             for i, l in enumerate(lines):
                 m = re.match(r"^\s*at (.+):(\d+) in (\S+)\s*$", l)
@@ -330,7 +372,7 @@ def run_renders(sh, env, n):
         mc = gen_module(rng)
         msg_class = rng.choice(sorted(MESSAGES))
         message = MESSAGES[msg_class]
-        mode = rng.choice(["plain", "plain", "relay", "mutual", "deleted"])
+        mode = rng.choice(["plain", "plain", "relay", "mutual", "deleted", "two-sites", "two-sites"])
         depth = rng.choice([0, 1, 1, 2, 5, 30, 60])
         case = dict(kind="module", source=mc["source"], shape=mc["shape"], msg_class=msg_class, mode=mode, depth=depth, ansi=rng.random() < 0.5, utf8=rng.random() < 0.7,
                     verbosities=[rng.choice([0, 1, 2, 4])] if i % 4 else [0, 1, 2, 4])
